@@ -59,7 +59,8 @@ CLAIMED = {
              "every step every message object must serialise as at parse time, a re-merged object must give a result allowed by "
              "Merge for its ORIGINAL content, and each object's pre-state must equal its previous post-state (no change outside "
              "its own steps); no Element object and no attribute dictionary may be reachable from two live trees (MosAlias!NoSharedNodes observed "
-             "on the real heap, clause msg_unshared); a fifth of the merges go through the documented msg.merge(ro) instead of `+`.",
+             "on the real heap, clause msg_unshared); a fifth of the merges go through the documented msg.merge(ro) instead of `+`; every history merge is repeated on freshly read "
+             "copies of both contents and must give the same status, warnings and serialisation (clause history_free).",
         design="6/C13", technique="TLA+ history model; behaviour replay on live objects with aliasing observations; TLC trace judge (continuity)"),
     "C14": dict(
         text="Envelope invariants are TLC invariants of MosLife; on the code every visited state of every replayed behaviour is "
